@@ -34,3 +34,219 @@ Proof.
   split; [vm_compute; repeat split; reflexivity|]. split; [vm_compute; reflexivity|].
   split; intro H; apply C03_counter_free_placeholder in H; try reflexivity; discriminate H.
 Qed.
+
+(* ================================================================================================ *)
+(* Document level: one write/read cycle is a fixed point                                             *)
+(* ================================================================================================ *)
+From DictIO Require Import Value Scalar KeyPath TokParser TreeSpec NativeSpec E2ESpec.
+From DictIO Require Import E2EProofs E2EHoles E2EKeyTok E2EFullProofs.
+From DictIO Require Import RereadPlain RereadStr RereadTree RereadWrite RereadLex RereadNum RereadProofs RereadFix.
+From Coq Require Import Lia.
+Open Scope N_scope.
+
+(* ---- plain dicts ------------------------------------------------------------------------------------ *)
+(* For a plain dict in the writer domain (side conditions of C01_roundtrip): reading the written text gives
+   d1 = the dict with every leaf as the classifier reads its written form; d1 is again in the writer domain, reading
+   what is written for d1 gives d1 itself (the classifier is idempotent on written forms), and so does every later
+   cycle; in particular the text written for d1 is reproduced byte for byte. *)
+Theorem C03_plain_fixed_point : forall kvs dirc count dirc' count',
+  wf (Dict kvs) = true -> writable_tree (Dict kvs) = true ->
+  (-1 <= count)%Z -> (-1 <= count')%Z -> (Z.of_nat (nq (Dict kvs)) <= 1000000)%Z -> quoted_within 11 (Dict kvs) = true ->
+  let d1 := reread_plain kvs in
+  (exists c1, parse_string true dirc count (to_string_plain kvs) = Ok (mkParsed (mkSD d1 [] [] [] []) c1)) /\
+  (exists c2, parse_string true dirc' count' (to_string_plain d1) = Ok (mkParsed (mkSD d1 [] [] [] []) c2)) /\
+  wf (Dict d1) = true /\ writable_tree (Dict d1) = true /\ reread_plain d1 = d1 /\
+  to_string_plain (reread_plain d1) = to_string_plain d1.
+Proof. exact plain_fixed_point. Qed.
+Print Assumptions C03_plain_fixed_point.
+
+(* non-vacuity: quoted strings, a string that is re-typed to an int (0012), one that is re-typed to a bool (' true '),
+   nested dicts and lists.  The last two parts show what the first cycle changes and that the second changes nothing. *)
+Example C03_plain_fixed_point_nonvacuous :
+  let d := [(KS (of_string "alpha"), Leaf (SStr (of_string "two words")));
+            (KI 3, Dict [(KS (of_string "b"), Lst [Leaf (SStr (of_string "it's")); Dict [(KS (of_string "c"), Leaf (SStr (of_string "0012")))]]);
+                         (KS (of_string "e"), Leaf (SStr (of_string "")))]);
+            (KS (of_string "w"), Leaf (SStr (of_string " true ")))] in
+  wf (Dict d) = true /\ writable_tree (Dict d) = true /\ (Z.of_nat (nq (Dict d)) <= 1000000)%Z /\ quoted_within 11 (Dict d) = true /\
+  (exists c1, parse_string true [] 7 (to_string_plain d) = Ok (mkParsed (mkSD (reread_plain d) [] [] [] []) c1)) /\
+  (exists c2, parse_string true [] 7 (to_string_plain (reread_plain d)) = Ok (mkParsed (mkSD (reread_plain d) [] [] [] []) c2)) /\
+  reread_plain d <> d /\ reread_plain (reread_plain d) = reread_plain d.
+Proof.
+  intros d.
+  assert (H1 : wf (Dict d) = true) by (vm_compute; reflexivity).
+  assert (H2 : writable_tree (Dict d) = true) by (vm_compute; reflexivity).
+  assert (H3 : (Z.of_nat (nq (Dict d)) <= 1000000)%Z) by (vm_compute; discriminate).
+  assert (H4 : quoted_within 11 (Dict d) = true) by (vm_compute; reflexivity).
+  destruct (C03_plain_fixed_point d [] 7%Z [] 7%Z H1 H2 ltac:(lia) ltac:(lia) H3 H4) as (A & B & _ & _ & C & _).
+  refine (conj H1 (conj H2 (conj H3 (conj H4 (conj A (conj B (conj _ C))))))).
+  vm_compute. discriminate.
+Qed.
+
+(* the text of the FIRST cycle is reproduced exactly when no leaf changes its spelling by being read back ... *)
+Theorem C03_plain_text_stable : forall kvs, ktree stable_leaf (Dict kvs) = true ->
+  to_string_plain (reread_plain kvs) = to_string_plain kvs.
+Proof. exact plain_text_stable. Qed.
+Print Assumptions C03_plain_text_stable.
+
+Example C03_plain_text_stable_nonvacuous :
+  let d := [(KS (of_string "alpha"), Leaf (SStr (of_string "two words"))); (KS (of_string "x"), Leaf (SFloat (of_string "1.50")));
+            (KS (of_string "l"), Lst [Leaf (SInt 12); Leaf (SBool true)])] in
+  ktree stable_leaf (Dict d) = true /\ to_string_plain (reread_plain d) = to_string_plain d.
+Proof. intros d. assert (H : ktree stable_leaf (Dict d) = true) by (vm_compute; reflexivity). exact (conj H (C03_plain_text_stable d H)). Qed.
+
+(* ... and not in general (counterexample to "the written text is stable from the first cycle on" for dicts that were
+   not themselves read from a file): the string 0012 is written 0012, read back as the int 12 and then written 12 *)
+Example C03_plain_text_not_stable :
+  let d := [(KS (of_string "n"), Leaf (SStr (of_string "0012")))] in
+  wf (Dict d) = true /\ writable_tree (Dict d) = true /\
+  reread_plain d = [(KS (of_string "n"), Leaf (SInt 12))] /\
+  to_string_plain (reread_plain d) <> to_string_plain d.
+Proof. vm_compute. repeat split; try reflexivity. discriminate. Qed.
+
+(* ---- SDicts with comments --------------------------------------------------------------------------- *)
+(* WANTED (full statement): for every SDict s that the reader itself returns for a commented source without includes and
+   expressions,  parse_string true dir count (to_string_sd s) = Ok (mkParsed s' count')  with s' = s up to the header, the
+   order of the top-level block comments, the leaf normalisation written_value and the placeholder numbers; applying the
+   cycle twice gives the same canonical form as applying it once, and the same bytes.
+   PROVED (partial): exactly this, for the class  rereadable  below.  What the class leaves out of "what the reader
+   returns", and why:
+     - comment entries inside dicts that are elements of LISTS (the library handles them; the proof treats a list as one
+       block of text and has no comment lines inside it);
+     - two line comments with the same text in DIFFERENT dicts, and block comments with equal texts sharing one id (the
+       numbering of the result is keyed by the comment text; the reader only guarantees distinct texts per dict);
+     - source texts not written by the library: the theorems start from an SDict (every SDict read from a file the library
+       wrote is in the class: C03_reread_closed).
+   The remaining conditions of the class are necessary: each excludes a case in which the model (and the library) loses or
+   changes a comment in one write/read cycle (C12_finding_* in C12.v). *)
+(* The class (RereadTree.rereadable): what the reader itself returns for a commented source without includes and
+   expressions -- ordinary entries in the writer domain at any depth, comment placeholder entries at any dict level
+   reached through dicts (NOT inside dicts that sit in lists: restriction of this theorem), tables as described at the
+   definition.  Reading the text written for such an SDict returns  number count (written_doc s) : the canonical
+   document (comment placeholders resolved to id-free entries carrying the comment text, top-level block comments
+   first, the header in front) renumbered in text order.  Side conditions: the counter is at least -1 and there are at
+   most a million comments of each kind and quoted literals (six-digit placeholders). *)
+Theorem C03_reread_partial : forall s dir count, rereadable s = true -> (-1 <= count)%Z ->
+  (Z.of_nat (length (lc_list (written_doc s))) <= 1000000)%Z -> (Z.of_nat (length (bc_list (written_doc s))) <= 1000000)%Z ->
+  (Z.of_nat (length (lit_list (written_doc s))) <= 1000000)%Z ->
+  parse_string true dir count (to_string_sd s) =
+  Ok (mkParsed (number count (written_doc s)) (count_after count (written_doc s))).
+Proof. exact reread_sd. Qed.
+Print Assumptions C03_reread_partial.
+
+(* the example SDict: a line comment first, a top-level block comment without the C++ mark (so the default header is
+   put in front of it), a nested dict with a line comment and a multi-line block comment, a quoted string, a string
+   that is re-typed (0012), a list with a dict; comment texts with quotes, a dollar and the word COMMENT *)
+Definition ex_ph (w : str) (i : N) : key * tree := (KS (placeholder w i), Leaf (SStr (placeholder w i))).
+Definition ex_sd : sdict :=
+  mkSD [ ex_ph w_LINECOMMENT 7;
+         (KS (of_string "a"), Leaf (SStr (of_string "0012")));
+         ex_ph w_BLOCKCOMMENT 3;
+         (KS (of_string "sub"), Dict [ex_ph w_LINECOMMENT 2; (KS (of_string "b"), Leaf (SStr (of_string "x y"))); ex_ph w_BLOCKCOMMENT 5;
+              (KS (of_string "l"), Lst [Leaf (SInt 1); Dict [(KS (of_string "c"), Leaf (SInt 2))]])]);
+         ex_ph w_LINECOMMENT 4 ]
+       [(2, of_string "// two"); (4, of_string "// four"); (7, of_string "// seven $x 'q' COMMENT")]
+       [(3, of_string "/* three */"); (5, of_string "/* five
+   more # */")] [] [].
+
+Example C03_reread_partial_nonvacuous :
+  rereadable ex_sd = true /\
+  (Z.of_nat (length (lc_list (written_doc ex_sd))) <= 1000000)%Z /\ (Z.of_nat (length (bc_list (written_doc ex_sd))) <= 1000000)%Z /\
+  (Z.of_nat (length (lit_list (written_doc ex_sd))) <= 1000000)%Z /\
+  to_string_sd ex_sd = of_string
+"/*---------------------------------*- C++ -*----------------------------------*\
+filetype dictionary; coding utf-8; version 0.1; local --; purpose --;
+\*----------------------------------------------------------------------------*/
+/* three */
+// seven $x 'q' COMMENT
+a                             0012;
+sub
+{
+    // two
+    b                         'x y';
+    /* five
+   more # */
+    l
+    (
+        1
+        {
+            c                 2;
+        }
+    );
+}
+// four
+" /\
+  parse_string true [] 41 (to_string_sd ex_sd) = Ok (mkParsed (number 41 (written_doc ex_sd)) 45) /\
+  (* the comments in text order with their exact texts, renumbered 42.. (line) and 0.. (block, the default header first) *)
+  sd_lc (number 41 (written_doc ex_sd)) = [(42, of_string "// seven $x 'q' COMMENT"); (43, of_string "// two"); (44, of_string "// four")] /\
+  map fst (sd_bc (number 41 (written_doc ex_sd))) = [0; 1; 2] /\
+  map fst (sd_data (number 41 (written_doc ex_sd))) =
+    [KS (of_string "BLOCKCOMMENT000000"); KS (of_string "BLOCKCOMMENT000001"); KS (of_string "LINECOMMENT000042");
+     KS (of_string "a"); KS (of_string "sub"); KS (of_string "LINECOMMENT000044")].
+Proof.
+  assert (H0 : rereadable ex_sd = true) by (vm_compute; reflexivity).
+  assert (H1 : (Z.of_nat (length (lc_list (written_doc ex_sd))) <= 1000000)%Z) by (vm_compute; discriminate).
+  assert (H2 : (Z.of_nat (length (bc_list (written_doc ex_sd))) <= 1000000)%Z) by (vm_compute; discriminate).
+  assert (H3 : (Z.of_nat (length (lit_list (written_doc ex_sd))) <= 1000000)%Z) by (vm_compute; discriminate).
+  pose proof (C03_reread_partial ex_sd [] 41%Z H0 ltac:(lia) H1 H2 H3) as R.
+  assert (Hc : count_after 41 (written_doc ex_sd) = 45%Z) by (vm_compute; reflexivity). rewrite Hc in R.
+  refine (conj H0 (conj H1 (conj H2 (conj H3 (conj _ (conj R _)))))); vm_compute; repeat split; reflexivity.
+Qed.
+
+(* The fixed point.  With c = the canonical document of the written text, s1 = the SDict read back, c1 = c with its
+   leaves read back: s1 is again re-readable; the second cycle returns an SDict s2 with the same canonical form c1 as s1
+   (same data, same comments with the same texts in the same places: only the placeholder numbers depend on the
+   counter); and writing s2 reproduces the text written for s1 byte for byte. *)
+Theorem C03_reread_fixed_point_partial : forall s dir count dir' count', rereadable s = true -> (-1 <= count)%Z -> (-1 <= count')%Z ->
+  (Z.of_nat (length (lc_list (written_doc s))) <= 1000000)%Z -> (Z.of_nat (length (bc_list (written_doc s))) <= 1000000)%Z ->
+  (Z.of_nat (length (lit_list (written_doc s))) <= 1000000)%Z ->
+  let c := written_doc s in let s1 := number count c in let c1 := cwv c in let s2 := number count' c1 in
+  parse_string true dir count (to_string_sd s) = Ok (mkParsed s1 (count_after count c)) /\
+  rereadable s1 = true /\
+  parse_string true dir' count' (to_string_sd s1) = Ok (mkParsed s2 (count_after count' c1)) /\
+  canon s1 = c1 /\ canon s2 = c1 /\
+  to_string_sd s2 = to_string_sd s1.
+Proof. exact reread_fixed_point. Qed.
+Print Assumptions C03_reread_fixed_point_partial.
+
+Example C03_reread_fixed_point_partial_nonvacuous :
+  let c := written_doc ex_sd in let s1 := number 41 c in let s2 := number 45 (cwv c) in
+  rereadable ex_sd = true /\
+  parse_string true [] 41 (to_string_sd ex_sd) = Ok (mkParsed s1 45) /\ rereadable s1 = true /\
+  parse_string true [] 45 (to_string_sd s1) = Ok (mkParsed s2 49) /\
+  canon s1 = cwv c /\ canon s2 = cwv c /\ to_string_sd s2 = to_string_sd s1 /\
+  (* the first cycle changes the text (the default header is added, block comments move to the top, 0012 becomes 12) *)
+  to_string_sd s1 <> to_string_sd ex_sd.
+Proof.
+  intros c s1 s2.
+  assert (H0 : rereadable ex_sd = true) by (vm_compute; reflexivity).
+  assert (H1 : (Z.of_nat (length (lc_list (written_doc ex_sd))) <= 1000000)%Z) by (vm_compute; discriminate).
+  assert (H2 : (Z.of_nat (length (bc_list (written_doc ex_sd))) <= 1000000)%Z) by (vm_compute; discriminate).
+  assert (H3 : (Z.of_nat (length (lit_list (written_doc ex_sd))) <= 1000000)%Z) by (vm_compute; discriminate).
+  destruct (C03_reread_fixed_point_partial ex_sd [] 41%Z [] 45%Z H0 ltac:(lia) ltac:(lia) H1 H2 H3) as (A & B & C & D & E & F).
+  assert (Hc1 : count_after 41 (written_doc ex_sd) = 45%Z) by (vm_compute; reflexivity). rewrite Hc1 in A.
+  assert (Hc2 : count_after 45 (cwv (written_doc ex_sd)) = 49%Z) by (vm_compute; reflexivity). rewrite Hc2 in C.
+  refine (conj H0 (conj A (conj B (conj C (conj D (conj E (conj F _))))))). vm_compute. discriminate.
+Qed.
+
+(* the re-read SDict of a sorted document with a marked header is re-readable, and its written document is the document
+   with its leaves read back (used twice in the fixed point theorem) *)
+Theorem C03_reread_closed : forall c count, cdoc_ok c = true -> csort c = c -> has_header c = true -> (-1 <= count)%Z ->
+  (Z.of_nat (length (lc_list c)) <= 1000000)%Z -> (Z.of_nat (length (bc_list c)) <= 1000000)%Z ->
+  rereadable (number count c) = true /\ written_doc (number count c) = cwv c.
+Proof. exact number_rereadable. Qed.
+Print Assumptions C03_reread_closed.
+
+Example C03_reread_closed_nonvacuous :
+  let c := written_doc ex_sd in
+  cdoc_ok c = true /\ csort c = c /\ has_header c = true /\
+  (Z.of_nat (length (lc_list c)) <= 1000000)%Z /\ (Z.of_nat (length (bc_list c)) <= 1000000)%Z /\
+  rereadable (number 41 c) = true /\ written_doc (number 41 c) = cwv c.
+Proof.
+  intros c.
+  assert (H0 : cdoc_ok c = true) by (vm_compute; reflexivity).
+  assert (H1 : csort c = c) by (vm_compute; reflexivity).
+  assert (H2 : has_header c = true) by (vm_compute; reflexivity).
+  assert (H3 : (Z.of_nat (length (lc_list c)) <= 1000000)%Z) by (vm_compute; discriminate).
+  assert (H4 : (Z.of_nat (length (bc_list c)) <= 1000000)%Z) by (vm_compute; discriminate).
+  exact (conj H0 (conj H1 (conj H2 (conj H3 (conj H4 (C03_reread_closed c 41%Z H0 H1 H2 ltac:(lia) H3 H4)))))).
+Qed.
